@@ -42,7 +42,7 @@ class OsuToSM(ConvertBase):
         sms.background = osu.background_file_name
         sms.sample_start = osu.preview_time
         sms.sample_length = 10
-        sms.offset = 0.0
+        sms.offset = osu.bpms.first_offset()
 
         sm.chart_type = SMMapChartTypes.get_type(osu.stack().column.max() + 1)
 
